@@ -263,6 +263,7 @@ func Full(s *SvcSpec, r *RouteSpec) Tmpl {
 type Req struct {
 	Method  string            `json:"method"`
 	Path    string            `json:"path"`
+	Query   string            `json:"query,omitempty"`    // URL.RawQuery (routing looks at the path only)
 	RawPath string            `json:"raw_path,omitempty"` // URL.RawPath as a server sets it when the wire form is not the default encoding
 	HasCT   bool              `json:"has_ct,omitempty"`
 	CT      string            `json:"ct,omitempty"`
